@@ -607,8 +607,10 @@ pub fn check_c19(h: &History) -> Result<CaseInfo, Failure> {
     }
     // Typed additions under a type table: the layout depends on this table only, not on the tables the
     // process (this thread, this stack address) has used before.
-    let (first, _other, again) = (typed_layout(h, 4), typed_layout(h, 16), typed_layout(h, 4));
-    if first != again {
+    let (first, other, again) = (typed_layout(h, 4), typed_layout(h, 16), typed_layout(h, 4));
+    // (what a thread that has never seen a table computes)
+    let other_fresh = std::thread::scope(|s| s.spawn(|| typed_layout(h, 16)).join().ok().flatten());
+    if first != again || other != other_fresh {
         return Err(Failure::new(
             "offsets-differ",
             "typed additions under the same type table gave two layouts, before and after another table was used",
